@@ -252,8 +252,13 @@ func (rn *runner) codecCase(k int, r *prng.R) {
 			rep := rn.bytesCase(k, c, ab)
 			if want := c.showFn()(v); !strings.HasPrefix(rep.obs, "ok rest=0 ") || !strings.HasSuffix(rep.obs, " v="+want) {
 				key := c.name + "-alt-roundtrip"
-				if strings.HasPrefix(c.name, "message") {
-					key = "message-lz4-roundtrip" // the node's own compressed framing of a valid payload
+				if strings.HasPrefix(c.name, "message") && len(ab) > 0 && ab[0]&1 != 0 {
+					// the compressed framing of a payload whose uncompressed framing (b) is accepted: the only
+					// difference is network.compress / decompress, i.e. the known LZ4 decoder defect; anything
+					// else keeps the generic key
+					if plain := rn.ask(k, c.name, "B "+c.name+" "+hx.Hex(b)); strings.HasPrefix(plain.obs, "ok rest=0 ") && strings.HasSuffix(plain.obs, " v="+want) {
+						key = "message-lz4-roundtrip"
+					}
 				}
 				o.Fail(key, k, "alternative encoding of a valid value is not decoded to it (%s): %d bytes %s", trunc(rep.obs, 100), len(ab), trunc(hx.Hex(ab), 120))
 			}
